@@ -393,30 +393,52 @@ theorem C07_extend_reads_current (w : World V) (hw : MemoOK w) (s : Nat) (ext : 
   | none => rfl
   | some i =>
     simp only
-    cases w.heap[i]? with
-    | none => rfl
-    | some t =>
-      cases t with
-      | param l => rfl
-      | scale m bs => rfl
-      | node cs => rfl
+    cases (if sharesWithBaseline w w.systems[s] = true then ownCopy w s i else (w, i)) with
+    | mk w1 j =>
+      simp only
+      cases w1.heap[j]? with
+      | none => rfl
+      | some t =>
+        cases t with
+        | param l => rfl
+        | scale m bs => rfl
+        | node cs => rfl
+
+/-- An extension loaded on a reform never changes the tree of that reform's baseline: a reform that
+    still refers to its baseline's object is given a copy of its own before the merge (repair C14f),
+    and otherwise the object merged into is not the baseline's. -/
+theorem C07_extend_spares_baseline (w : World V) (hw : RefsOK w) (s b : Nat) (r : SysRec)
+    (hr : w.systems[s]? = some r) (hb : r.baseline = some b) (hne : b ≠ s) (hbl : b < w.systems.length)
+    (ext : List (String × PNode V)) :
+    (step w (.extend s ext)).1.treeOf b = w.treeOf b := by
+  apply step_treeOf_other w hw _ b hbl
+  simp only [Op.spares, Bool.and_eq_true, bne_iff_ne, ne_eq]
+  refine ⟨fun c => hne c.symm, ?_⟩
+  rw [hr, List.getElem?_eq_getElem hbl]
+  simp only [Bool.or_eq_true, bne_iff_ne, ne_eq, sharesWithBaseline, hb, List.getElem?_eq_getElem hbl, beq_iff_eq]
+  by_cases h : w.systems[b].tree = r.tree
+  · exact Or.inl h
+  · exact Or.inr (fun c => h c.symm)
 
 /-- A reform that has not replaced its tree refers to its baseline's object: an extension loaded on the
-    baseline after both views were read shows through every route of both; once the reform has run a
-    modifier it has its own object and no longer follows. A conflicting extension (`x` exists) stops,
-    having added `a` — and the views still follow the tree. -/
+    BASELINE (system 0) after both views were read shows through every route of both (reform 1 follows);
+    an extension loaded on the un-modified REFORM (system 1) goes to a copy of its own — the baseline does
+    not change, and a reform stacked on it earlier (system 2, which refers to the same old object) does
+    not follow either. A conflicting extension (`x` exists) stops, having added `a` — and the views
+    still follow the tree. -/
 example :
-    let w0 : World Nat := ⟨[.node [("x", .param [⟨10, some 7⟩])]], [⟨some 0, none⟩, ⟨some 0, some 0⟩], []⟩
+    let w0 : World Nat := ⟨[.node [("x", .param [⟨10, some 7⟩])]], [⟨some 0, none⟩, ⟨some 0, some 0⟩, ⟨some 0, some 1⟩], []⟩
     let ext : List (String × PNode Nat) := [("a", .param [⟨10, some 1⟩]), ("x", .param [⟨10, some 2⟩]), ("b", .param [⟨10, some 3⟩])]
-    let f : PNode Nat → ModProg Nat := pureMod (fun t => .ok t)
-    let ops : List (Op Nat) := [.readView 0 0 12 [], .readView 1 0 12 [], .extend 0 ext]
-    (step (run w0 ops) (.readView 1 0 12 ["a"])).2 = .value (.ok (some (.val 1))) [] ∧
-    (step (run w0 ops) (.readView 0 0 12 ["a"])).2 = .value (.ok (some (.val 1))) [] ∧
-    (step (run w0 ops) (.readView 0 0 12 ["x"])).2 = .value (.ok (some (.val 7))) [] ∧
-    (step (run w0 ops) (.readView 0 0 12 ["b"])).2 = .value (.error "ParameterNotFoundError") [] ∧
-    (step (run w0 (.modify 1 f :: ops)) (.readView 1 0 12 ["a"])).2 = .value (.error "ParameterNotFoundError") [] ∧
-    (step (run w0 (.modify 1 f :: ops)) (.readTree 1 ["a"] 12)).2 = .value (.error "AttributeError") [] :=
-  ⟨rfl, rfl, rfl, rfl, rfl, rfl⟩
+    let reads : List (Op Nat) := [.readView 0 0 12 [], .readView 1 0 12 [], .readView 2 0 12 []]
+    (step (run w0 (reads ++ [.extend 0 ext])) (.readView 1 0 12 ["a"])).2 = .value (.ok (some (.val 1))) [] ∧
+    (step (run w0 (reads ++ [.extend 0 ext])) (.readView 0 0 12 ["a"])).2 = .value (.ok (some (.val 1))) [] ∧
+    (step (run w0 (reads ++ [.extend 0 ext])) (.readView 0 0 12 ["x"])).2 = .value (.ok (some (.val 7))) [] ∧
+    (step (run w0 (reads ++ [.extend 0 ext])) (.readView 0 0 12 ["b"])).2 = .value (.error "ParameterNotFoundError") [] ∧
+    (step (run w0 (reads ++ [.extend 1 ext])) (.readView 1 0 12 ["a"])).2 = .value (.ok (some (.val 1))) [] ∧
+    (step (run w0 (reads ++ [.extend 1 ext])) (.readView 0 0 12 ["a"])).2 = .value (.error "ParameterNotFoundError") [] ∧
+    (step (run w0 (reads ++ [.extend 1 ext])) (.readView 2 0 12 ["a"])).2 = .value (.error "ParameterNotFoundError") [] ∧
+    (step (run w0 (reads ++ [.extend 1 ext])) (.readTree 0 ["a"] 12)).2 = .value (.error "AttributeError") [] :=
+  ⟨rfl, rfl, rfl, rfl, rfl, rfl, rfl, rfl⟩
 
 /-- `_get_baseline_parameters_at_instant` is the view of the root of the chain of baselines: it reads
     that system's current tree. -/
@@ -434,11 +456,13 @@ example : rootOf [⟨some 0, none⟩, ⟨some 0, some 0⟩, ⟨some 1, some 1⟩
 
 /-- Whatever is done through reforms — creating them, running any modifier functions on them,
     reloading them, reading anything anywhere — as long as no operation of the history replaces the
-    tree of system `b` itself, nor changes a tree object in place (`load_extension` on a system that
-    still shares `b`'s object WOULD show in `b`: see the example after `C07_extend_reads_current`), `b`
-    keeps its tree and every read of `b` after the history returns what the same read returns before it. -/
+    tree of system `b` itself, nor merges an extension into the object `b` refers to (`Spared`: an
+    extension loaded on a reform that still shares its baseline's object goes to a copy, in particular
+    one loaded on a reform of `b` never reaches `b` — `C07_extend_spares_baseline`; one loaded on `b`
+    itself, or in place on an object that `b` also refers to, is excluded), `b` keeps its tree and every read of `b` after the history returns what the
+    same read returns before it. -/
 theorem C07_reform_isolated (w : World V) (hw : MemoOK w) (ops : List (Op V)) (b : Nat)
-    (hb : b < w.systems.length) (hops : ∀ op ∈ ops, op.target ≠ some b ∧ op.inPlace = false)
+    (hb : b < w.systems.length) (hops : Spared b w ops)
     (form form' : Nat) (d : Int) (path : List String) :
     (run w ops).treeOf b = w.treeOf b ∧
     (step (run w ops) (.readView b form d path)).2 = (step w (.readView b form' d path)).2 ∧
@@ -466,6 +490,25 @@ theorem C07_reform_isolated (w : World V) (hw : MemoOK w) (ops : List (Op V)) (b
     rw [htree] at e1
     simp only [step, doRead, hv1, hv2, e1, e2]
     cases traced <;> simp
+
+/-- a history that spares the baseline although it loads extensions: on its reform (a copy first), then
+    again on the reform (in place, on the reform's own object) and on a reform stacked on it -/
+example :
+    let w0 : World Nat := ⟨[.node [("x", .param [⟨10, some 7⟩])]], [⟨some 0, none⟩], []⟩
+    let ext : List (String × PNode Nat) := [("a", .param [⟨10, some 1⟩])]
+    Spared 0 w0 [.newReform 0, .readView 0 0 12 [], .extend 1 ext, .extend 1 [("b", .param [])], .newReform 1,
+      .extend 2 [("c", .param [])], .readView 0 0 12 []] :=
+  ⟨rfl, rfl, rfl, rfl, rfl, rfl, rfl, trivial⟩
+
+/-- the static sufficient condition: no operation of the history replaces the tree of `b` nor changes a
+    tree object in place -/
+theorem C07_reform_isolated_static (w : World V) (hw : MemoOK w) (ops : List (Op V)) (b : Nat)
+    (hb : b < w.systems.length) (hops : ∀ op ∈ ops, op.target ≠ some b ∧ op.inPlace = false)
+    (form : Nat) (d : Int) (path : List String) :
+    (run w ops).treeOf b = w.treeOf b ∧
+    (step (run w ops) (.readView b form d path)).2 = (step w (.readView b form d path)).2 :=
+  ⟨(C07_reform_isolated w hw ops b hb (spared_of_static w ops b hops) form form d path).1,
+   (C07_reform_isolated w hw ops b hb (spared_of_static w ops b hops) form form d path).2.1⟩
 
 example :
     let f : PNode Nat → Except String (PNode Nat) := fun _ => .ok (.node [("x", .param [⟨10, some 70⟩])])
@@ -501,4 +544,6 @@ end OFCore
 #print axioms OFCore.C07_merge_spec
 #print axioms OFCore.C07_extend_reads_current
 #print axioms OFCore.C07_base_view
+#print axioms OFCore.C07_extend_spares_baseline
+#print axioms OFCore.C07_reform_isolated_static
 #print axioms OFCore.C07_reform_isolated
